@@ -1075,6 +1075,12 @@ func runNetBan(k *mon.Case) {
 	// (a) penalised up to a ban
 	if !waitUntil(watchdog, func() bool { return ns.bannedAtV(offIP) }) {
 		sc, ex, has := g.Score(offIP)
+		if !ns.V.Connected(ns.O) {
+			// on a stalled machine a 4 s ban can come and go unobserved (the peer was disconnected,
+			// which only a ban does here), or the connection was lost before the offence
+			k.Inconclusive("ban-not-observed-but-peer-disconnected")
+			return
+		}
 		k.Violation("offence-did-not-ban:"+ns.trigger, "the offence did not leave the sender's IP banned (waited 30 s)", ns.wit(map[string]any{"score": sc, "expiration": ex, "has_entry": has}))
 		return
 	}
@@ -1184,6 +1190,15 @@ func runNetBan(k *mon.Case) {
 			break
 		}
 		time.Sleep(100 * time.Millisecond)
+	}
+	if !reconnected && !ns.bannedAtV(offIP) {
+		// the gater has forgotten the ban and all its gates accept the IP: the failed dials are
+		// timeouts of a stalled machine, not refusals
+		a := ma.StringCast("/ip4/" + offIP + "/tcp/1")
+		if g.InterceptAddrDial(ns.O.ID(), a) && g.InterceptAccept(p2pnet.CMA{Remote: a}) && g.InterceptSecured(network.DirInbound, ns.O.ID(), p2pnet.CMA{Remote: a}) {
+			k.Inconclusive("ban-expired-but-reconnect-timed-out")
+			return
+		}
 	}
 	if !reconnected {
 		sc, ex, has := g.Score(offIP)
@@ -1395,9 +1410,9 @@ func main() {
 			}
 			k.Eval(7)
 		})
-		c.Cases("ratelimit-direct", c.N(32, 1600), runRateLimitDirect)
+		c.Cases("ratelimit-direct", c.N(32, 800), runRateLimitDirect)
 		c.Cases("net-legal", c.N(8, 200), runNetLegal)
 		c.Cases("net-blacklist", c.N(4, 100), runNetBlacklist)
-		c.Cases("net-ban", c.N(33, 660), runNetBan)
+		c.Cases("net-ban", c.N(33, 440), runNetBan)
 	})
 }
